@@ -115,29 +115,102 @@ func runC03(c *Ctx) {
 		}
 		c.Check("R3.1", "slot i is filled from definition i", combine.Pos(), nStores >= 1 && okStores, fmt.Sprintf("%d stores into the automaton slice, not all indexed by the range index over s.Definitions", nStores))
 	}
-	// back-mapping: stateDefs[f] = append(stateDefs[f], s.Definitions[i]) with i the range index over CombineDFA's second result
-	backOK := false
+	// back-mapping: stateDefs[f] = append(stateDefs[f], s.Definitions[i]) with i the range index over CombineDFA's second result.
+	// Three outcomes: the index is that range index (here or in a helper that is handed the lists); the index is recognisably
+	// something else (a constant, an index shifted by a constant, the index of a loop over another collection); or the index
+	// takes a route the rule does not follow (kept in a struct first, say), which is undecided.
+	backOK, backBad := false, ""
+	type scope struct {
+		fn    *ssa.Function
+		isMap func(ssa.Value) bool
+	}
+	scopes := []scope{{fn, func(v ssa.Value) bool {
+		ex, ok := v.(*ssa.Extract)
+		return ok && ex.Tuple == ssa.Value(combine) && ex.Index == 1
+	}}}
 	for _, b := range fn.Blocks {
 		for _, in := range b.Instrs {
-			ia, ok := in.(*ssa.IndexAddr)
+			call, ok := in.(*ssa.Call)
 			if !ok {
 				continue
 			}
-			if u, ok := ia.X.(*ssa.UnOp); ok {
-				if fa, ok := u.X.(*ssa.FieldAddr); ok && fieldName(fa) == "Definitions" {
-					// index must be the range index over Extract(combine, 1)
-					if isRangeIndexOverValue(ia.Index, func(v ssa.Value) bool {
-						ex, ok := v.(*ssa.Extract)
-						return ok && ex.Tuple == ssa.Value(combine) && ex.Index == 1
-					}) {
-						backOK = true
+			callee := call.Call.StaticCallee()
+			if callee == nil || len(callee.Blocks) == 0 || !strings.HasPrefix(fnPkgPath(callee), modPath) {
+				continue
+			}
+			args := call.Call.Args
+			for i, a := range args {
+				if ex, ok := a.(*ssa.Extract); ok && ex.Tuple == ssa.Value(combine) && ex.Index == 1 && i < len(callee.Params) {
+					par := callee.Params[i]
+					scopes = append(scopes, scope{callee, func(v ssa.Value) bool { return v == ssa.Value(par) }})
+				}
+			}
+		}
+	}
+	sawIndex := false
+	for _, sc := range scopes {
+		for _, b := range sc.fn.Blocks {
+			for _, in := range b.Instrs {
+				ia, ok := in.(*ssa.IndexAddr)
+				if !ok {
+					continue
+				}
+				u, ok := ia.X.(*ssa.UnOp)
+				if !ok {
+					continue
+				}
+				fa, ok := u.X.(*ssa.FieldAddr)
+				if !ok || fieldName(fa) != "Definitions" {
+					continue
+				}
+				sawIndex = true
+				switch {
+				case isRangeIndexOverValue(ia.Index, sc.isMap):
+					backOK = true
+				case isRangeIndexOverValue(ia.Index, func(ssa.Value) bool { return true }):
+					// the index of a loop over something else; a loop over the definitions themselves (filling the slots) is not a back-mapping
+					if !isRangeIndexOverValue(ia.Index, isDefs) {
+						backBad = "s.Definitions is indexed by the counter of a loop over another collection than the final-state lists returned by CombineDFA"
+					}
+				default:
+					if _, isConst := ia.Index.(*ssa.Const); isConst {
+						backBad = "s.Definitions is indexed by a constant where the final states are mapped back"
+					} else if _, isBin := ia.Index.(*ssa.BinOp); isBin {
+						// arithmetic on the position: i+1, len-1-i, ...
+						var uses func(v ssa.Value, d int) bool
+						uses = func(v ssa.Value, d int) bool {
+							if d > 4 {
+								return false
+							}
+							if isRangeIndexOverValue(v, sc.isMap) {
+								return true
+							}
+							if b2, ok := v.(*ssa.BinOp); ok {
+								return uses(b2.X, d+1) || uses(b2.Y, d+1)
+							}
+							return false
+						}
+						bo := ia.Index.(*ssa.BinOp)
+						if uses(bo.X, 0) || uses(bo.Y, 0) {
+							backBad = "s.Definitions is indexed by an arithmetic function of the position of the final-state list, not by the position itself"
+						}
 					}
 				}
 			}
 		}
 	}
-	c.Check("R3.1", "final states of automaton i are mapped back to definition i", combine.Pos(), backOK,
-		"s.Definitions is not indexed by the position of the final-state list returned by CombineDFA: accepting states are attributed to the wrong terminals")
+	switch {
+	case backOK:
+		c.Pass("R3.1", "final states of automaton i are mapped back to definition i", combine.Pos(), "")
+	case backBad != "":
+		c.Fail("R3.1", "final states of automaton i are mapped back to definition i", combine.Pos(), backBad+": accepting states are attributed to the wrong terminals")
+	default:
+		why := "s.Definitions is indexed by a value whose origin the rule does not follow (kept in a data structure between the loop over the final-state lists and the use)"
+		if !sawIndex {
+			why = "no indexing of s.Definitions was found in the function that combines the automata or in a helper it hands the final-state lists to"
+		}
+		c.Undecided("R3.1", "final states of automaton i are mapped back to definition i", combine.Pos(), why)
+	}
 
 	// ---- R3.2 decision table
 	checkWinnerTable(c, sp, fd)
